@@ -35,8 +35,39 @@ pub struct Mu(pub u64);
 #[derive(Default)]
 pub struct Mbad(pub [u64; 4]);
 
+/// zero-sized, registered with a cast that changes the address
+#[derive(Default)]
+pub struct Mzbad;
+
 std::thread_local! {
     static ZCOUNT: std::cell::Cell<u64> = const { std::cell::Cell::new(0) };
+    /// which type plays "type 5" (the one whose cast changes the address): false = `Mbad` (32 bytes), true = `Mzbad` (zero-sized)
+    static BAD_IS_ZST: std::cell::Cell<bool> = const { std::cell::Cell::new(false) };
+}
+
+pub fn set_bad_is_zst(on: bool) {
+    BAD_IS_ZST.with(|b| b.set(on));
+}
+fn bad_is_zst() -> bool {
+    BAD_IS_ZST.with(|b| b.get())
+}
+impl Obj for Mzbad {
+    fn tag(&self) -> u8 {
+        5
+    }
+    fn addr(&self) -> usize {
+        self as *const Mzbad as usize
+    }
+    fn bump(&mut self) {}
+    fn count(&self) -> u64 {
+        0
+    }
+}
+unsafe impl CastFrom<Mzbad> for dyn Obj {
+    fn cast(t: *mut Mzbad) -> *mut Self {
+        // deliberately wrong: another (dangling) address
+        (t as *mut u8).wrapping_add(16) as *mut Mzbad
+    }
 }
 
 impl Obj for Mz {
@@ -223,6 +254,7 @@ fn rid(i: u8) -> ResourceId {
         2 => ResourceId::new::<Ml>(),
         3 => ResourceId::new::<Mh>(),
         4 => ResourceId::new::<Mu>(),
+        _ if bad_is_zst() => ResourceId::new::<Mzbad>(),
         _ => ResourceId::new::<Mbad>(),
     }
 }
@@ -234,6 +266,7 @@ fn insert(w: &mut World, i: u8) {
         2 => w.insert(Ml::default()),
         3 => w.insert(Mh(vec![])),
         4 => w.insert(Mu(0)),
+        _ if bad_is_zst() => w.insert(Mzbad),
         _ => w.insert(Mbad::default()),
     }
 }
@@ -245,6 +278,7 @@ fn remove(w: &mut World, i: u8) {
         2 => drop(w.remove::<Ml>()),
         3 => drop(w.remove::<Mh>()),
         4 => drop(w.remove::<Mu>()),
+        _ if bad_is_zst() => drop(w.remove::<Mzbad>()),
         _ => drop(w.remove::<Mbad>()),
     }
 }
@@ -255,6 +289,7 @@ fn register(t: &mut MetaTable<dyn Obj>, i: u8) {
         1 => t.register::<Ms>(),
         2 => t.register::<Ml>(),
         3 => t.register::<Mh>(),
+        _ if bad_is_zst() => t.register::<Mzbad>(),
         _ => t.register::<Mbad>(),
     }
 }
@@ -683,9 +718,11 @@ pub fn run_with(alpha: Vec<Op17>, depth: usize, deadline: std::time::Instant, th
         }
         let results: std::sync::Mutex<Vec<(Vec<Op17>, Result<Vec<u8>, Fail>)>> = std::sync::Mutex::new(Vec::new());
         let next = std::sync::atomic::AtomicUsize::new(0);
+        let zst = bad_is_zst();
         std::thread::scope(|s| {
             for _ in 0..threads {
                 s.spawn(|| {
+                    set_bad_is_zst(zst);
                     let mut local = Vec::new();
                     loop {
                         let i = next.fetch_add(1, std::sync::atomic::Ordering::Relaxed);
